@@ -106,22 +106,26 @@ def poisoned(rf, pos, poison, rnd):
         if not rf.rules:
             return poisoned(rf, 'variable', poison, rnd)
         i = rnd.randrange(len(rf.rules))
-        rf2.rules[i].lets = list(rf2.rules[i].lets) + [('zzbad', poison)]
+        rf2.rules[i].lets = list(rf2.rules[i].lets)
+        rf2.rules[i].lets.insert(rnd.randint(0, len(rf2.rules[i].lets)), ('zzbad', poison))
     elif pos == 'field-extra':
         if not rf.rules:
             return poisoned(rf, 'variable', poison, rnd)
         i = rnd.randrange(len(rf.rules))
-        rf2.rules[i].fields = list(rf2.rules[i].fields) + [('zzbad', poison)]
+        rf2.rules[i].fields = list(rf2.rules[i].fields)
+        rf2.rules[i].fields.insert(rnd.randint(0, len(rf2.rules[i].fields)), ('zzbad', poison))
     elif pos == 'tag-extra':
         if not rf.rules:
             return poisoned(rf, 'variable', poison, rnd)
         i = rnd.randrange(len(rf.rules))
-        rf2.rules[i].tags = list(rf2.rules[i].tags) + ['{%s}' % poison]
+        rf2.rules[i].tags = list(rf2.rules[i].tags)
+        rf2.rules[i].tags.insert(rnd.randint(0, len(rf2.rules[i].tags)), '{%s}' % poison)
     elif pos == 'transform':
         rf2.transforms = list(rf2.transforms)
         rf2.transforms.insert(rnd.randint(0, len(rf2.transforms)), (rnd.choice(['field.description', 'field.memo', 'field.zz']), poison))
     else:
-        rf2.variables = list(rf2.variables) + [('zzbadvar', poison)]
+        rf2.variables = list(rf2.variables)
+        rf2.variables.insert(rnd.randint(0, len(rf2.variables)), ('zzbadvar', poison))     # before, between or after the file's own variables
     return rf2, base, None, pos, None
 
 
